@@ -2,9 +2,9 @@ package rules
 
 import (
 	"go/ast"
-	"go/types"
 	"go/parser"
 	"go/token"
+	"go/types"
 	"sort"
 	"strings"
 )
